@@ -261,6 +261,12 @@ func isPrismFn(f *ssa.Function) bool {
 		f = f.Parent()
 	}
 	if f.Pkg == nil {
+		// synthetic wrappers (method-expression thunks, bound-method closures)
+		// of a prism method belong to prism: they only forward to the method
+		if f.Synthetic != "" && f.Object() != nil && f.Object().Pkg() != nil {
+			pp := f.Object().Pkg().Path()
+			return pp == ModPath || strings.HasPrefix(pp, ModPath+"/")
+		}
 		return false
 	}
 	pp := f.Pkg.Pkg.Path()
